@@ -89,8 +89,8 @@ class C06(Check):
             'distinct by case.')
     TRUST = ['str.lower() is modelled for ASCII letters only; generators use ASCII letters plus uncased Unicode',
              'lxml parsing of the reply (error fields are taken from the parsed tree: environment)']
-    ASSUMPTIONS = ['three-valued where the statement is silent: a reply with both <ok/> and rpc-error; several errors of which only some '
-                   'messages are exempt']
+    ASSUMPTIONS = ['a reply with both <ok/> and rpc-error is left open (statement silent); with several errors, those whose message is exempt do '
+                   'not count and the decision is taken on the others']
 
     def cases(self, rng, tier):
         n = 1500 if tier == 'quick' else 40000
@@ -176,16 +176,12 @@ class C06(Check):
             return None      # statement silent
         # --- raise decision ---
         ex = [spec_exempt(pats, m) for m in msgs]
-        if case['mode'] == 0:
+        # an error whose message is exempt does not count; the decision is taken on the others
+        rest = [s_ for s_, e_ in zip(sevs, ex) if not e_]
+        if case['mode'] == 0 or not rest:
             want = False
-        elif not errs:
-            want = False
-        elif all(ex):
-            want = False
-        elif not any(ex):
-            want = case['mode'] == 2 or any(s == 'error' for s in sevs)
         else:
-            want = None     # only some messages exempt: statement silent
+            want = case['mode'] == 2 or any(s_ == 'error' for s_ in rest)
         if want is not None and io['raised'] != want:
             return ('C06:raise-decision' + ('-first-error-only' if len(errs) > 1 else ''),
                     'mode=%d severities=%r exempt=%r: %s' % (case['mode'], sevs, ex, 'raised' if io['raised'] else 'did not raise'))
